@@ -1000,6 +1000,106 @@ pub fn substitute(
     }
 }
 
+/// Collect the names of the type variables occurring in a type.
+fn collect_variables(type_id: usize, lookup: &impl TypeLookup, names: &mut Vec<String>) {
+    let Some(typ) = lookup.lookup_type(type_id) else {
+        return;
+    };
+    match typ {
+        Type::Variable(name) => {
+            if !names.contains(name) {
+                names.push(name.clone());
+            }
+        }
+        Type::Union(variants) => {
+            for &v in variants {
+                collect_variables(v, lookup, names);
+            }
+        }
+        Type::Callable {
+            parameter,
+            result,
+            receive,
+        } => {
+            collect_variables(*parameter, lookup, names);
+            collect_variables(*result, lookup, names);
+            collect_variables(*receive, lookup, names);
+        }
+        Type::Process { send, receive } => {
+            if let Some(s) = send {
+                collect_variables(*s, lookup, names);
+            }
+            if let Some(r) = receive {
+                collect_variables(*r, lookup, names);
+            }
+        }
+        Type::Tuple(tuple_id) => {
+            if let Some(info) = lookup.lookup_tuple(*tuple_id) {
+                for (_, field_type_id) in &info.fields {
+                    collect_variables(*field_type_id, lookup, names);
+                }
+            }
+        }
+        Type::Partial { fields, .. } => {
+            for (_, field_type_id) in fields {
+                collect_variables(*field_type_id, lookup, names);
+            }
+        }
+        Type::Integer | Type::Binary | Type::Reference | Type::Cycle(_) | Type::Resource(_) => {}
+    }
+}
+
+/// Unify a generic callee's parameter type with the type of its argument and, when a result type
+/// is given, instantiate it with the bindings found.
+///
+/// Inside a generic function the argument's type can itself mention type variables - those of
+/// the enclosing function. A variable of the callee that happens to have the same name is a
+/// different variable: unifying them as they stand would leave the callee's variable unbound
+/// ("don't bind a variable to itself"), free to be bound by whatever it meets next. So the
+/// callee's variables are renamed apart first; those the argument leaves undetermined get their
+/// names back in the result.
+pub fn unify_call(
+    param_id: usize,
+    result_id: Option<usize>,
+    arg_type: usize,
+    program: &mut Program,
+) -> Result<Option<usize>, Error> {
+    let mut bindings = HashMap::new();
+    if !contains_variables(arg_type, &*program) {
+        unify(&mut bindings, param_id, arg_type, program)?;
+        return Ok(result_id.map(|r| substitute(r, &bindings, program)));
+    }
+
+    let mut names = Vec::new();
+    collect_variables(param_id, &*program, &mut names);
+    if let Some(r) = result_id {
+        collect_variables(r, &*program, &mut names);
+    }
+    let apart_name = |name: &str| format!("{name}%callee");
+    let apart: HashMap<String, usize> = names
+        .iter()
+        .map(|name| {
+            let id = program.register_type(Type::Variable(apart_name(name)));
+            (name.clone(), id)
+        })
+        .collect();
+    let param_apart = substitute(param_id, &apart, program);
+    unify(&mut bindings, param_apart, arg_type, program)?;
+
+    Ok(result_id.map(|r| {
+        let result_apart = substitute(r, &apart, program);
+        let instantiated = substitute(result_apart, &bindings, program);
+        let back: HashMap<String, usize> = names
+            .iter()
+            .map(|name| {
+                let id = program.register_type(Type::Variable(name.clone()));
+                (apart_name(name), id)
+            })
+            .collect();
+        substitute(instantiated, &back, program)
+    }))
+}
+
 /// Unify a pattern type (containing Type::Variable) with a concrete type.
 /// Builds up a mapping from type variable names to concrete type IDs.
 /// Returns an error if there's a conflict (e.g., variable bound to two different types).
